@@ -1,6 +1,7 @@
 import SwcVerif.Props.C17
 import SwcVerif.Props.C17Gen
 import SwcVerif.Props.C17Front
+import SwcVerif.Props.C17Rest
 #print axioms C17.init_inv
 #print axioms C17.greedy_step
 #print axioms C17.step_inv
@@ -32,3 +33,12 @@ import SwcVerif.Props.C17Front
 #print axioms C17.generated_call_prim_attains
 #print axioms C17.generated_call_raises_empty
 #print axioms C17.generated_call_raises_bad_soma
+#print axioms C17.generated_cuntz_init
+#print axioms C17.clip_spec
+#print axioms C17.generated_mst_init
+#print axioms C17.generated_ctor_limit
+#print axioms C17.generated_cuntz_ctor
+#print axioms C17.rootPath_of_up
+#print axioms C17.wfr_of_spanning
+#print axioms C17.generated_tail_sorted
+#print axioms C17.generated_call_sorted_spanning
